@@ -115,6 +115,11 @@ def mk_subsets(name, which, depth, also_neighbours=False):
             ctx.claim(site_claim_name(residues, lab, removed), rep.count(lab) == 1, detail='removed %r: %r reported %d times (reported: %r)' % (sorted(removed), lab, rep.count(lab), rep))
         for lab in rep:
             ctx.claim('nothing-else-reported', lab in expected_sites(residues, removed), detail='removed %r: unexpected %r' % (sorted(removed), lab))
+        # the results as the API returns them (the averaged conformation): every site whose defining atom is present has its
+        # group there with a pKa -- also the side chain of an N-terminal Asp/Cys/His, which the text sections leave out (finding F9)
+        api = [g.label for g in mol.conformations['AVR'].groups if g.titratable or g.atom.cysteine_bridge]
+        for lab in expected_sites(residues, removed):
+            ctx.claim('site-in-the-averaged-conformation', api.count(lab) == 1, detail='removed %r: %r %d times among %r' % (sorted(removed), lab, api.count(lab), api))
     return body
 
 
@@ -163,6 +168,10 @@ def o_whole_residues(ctx):
         if res in DEFINING and DEFINING[res] in atoms:
             lab = '%s%4d A' % (res, rn)
             ctx.claim(site_claim_name(left, lab), rep.count(lab) == 1, detail='removed %r: %r reported %d times' % (sorted(removed_res), lab, rep.count(lab)))
+            # ... and as the API returns the results: the group is in the averaged conformation (also the side chain of an
+            # N-terminal Asp/Cys/His that the text sections leave out, finding F9)
+            api = [g.label for g in mol.conformations['AVR'].groups if g.titratable or g.atom.cysteine_bridge]
+            ctx.claim('site-in-the-averaged-conformation', api.count(lab) == 1, detail='removed %r: %r %d times among %r' % (sorted(removed_res), lab, api.count(lab), api))
 
 
 def o_first_conformation_wiped(ctx):
